@@ -340,7 +340,9 @@ def check(ctx: Ctx) -> str:
             if isinstance(lp, ast.For):
                 cands = [lp.iter]
                 if isinstance(lp.iter, ast.Name):
-                    cands = [a.value for a in ast.walk(vf.node) if isinstance(a, ast.Assign) and any(isinstance(t_, ast.Name) and t_.id == lp.iter.id for t_ in a.targets)]
+                    cands = [a.value for a in ast.walk(vf.node) if isinstance(a, (ast.Assign, ast.AnnAssign)) and a.value is not None and any(isinstance(t_, ast.Name) and t_.id == lp.iter.id for t_ in (a.targets if isinstance(a, ast.Assign) else [a.target]))]
+                # a conditional expression offers both arms
+                cands = [arm for c_ in cands for arm in ((c_.body, c_.orelse) if isinstance(c_, ast.IfExp) else (c_,))]
                 txts = [ast.unparse(c_) for c_ in cands]
                 tuple_cov = tuple_cov or any(".find_all(nodes.NSRef)" in x for x in txts)
                 # Node.find_all yields descendants only: the statement's find_all reaches a bare
